@@ -104,6 +104,7 @@ func c15Encode(c c15Case, img1, img2 *image.NRGBA, icc, exif, xmp []byte) ([]byt
 // own minimal walker (stimulus building only; the comparison itself is made by TVFiles).
 func checkC15(args []string) {
 	run := vx.NewRun("C15", "translation_validation", args)
+	activeRun = run
 	run.Rule = "product of output kind x metadata subset x blob class (all subsets with one class each; pairwise class mixes seeded); every written file is read by the strict TLA+ container reader: blobs byte-equal, VP8X flags = exactly the chunks present, image chunks byte-identical to the same encode without metadata; distinct = distinct (kind, classes) cases with at least one blob"
 	run.Assumptions = []string{"an empty (zero-length) blob may be stored as an empty chunk or omitted", "spec/Riff.tla is the reference reader"}
 	rng := rand.New(rand.NewSource(run.Seed))
@@ -224,7 +225,7 @@ func checkC15(args []string) {
 		files = append(files, fc)
 		// decoded pixels identical to the metadata-free encode (stills)
 		if c.kind[:4] != "anim" {
-			a, err1 := webp.Decode(bytes.NewReader(out))
+			a, err1 := guardedDecode(out)
 			b, err2 := webp.Decode(bytes.NewReader(base[c.kind]))
 			if err1 != nil || err2 != nil {
 				run.Violate("decode-error|"+c.kind, fmt.Sprintf("%v: decode failed: %v %v", c, err1, err2), c.String())
